@@ -530,6 +530,135 @@ pub fn clauses() -> Vec<Clause> {
     ]
 }
 
+/// Native f32 / f64 vectors with components m*2^e spread over 40 binary orders
+/// of magnitude (exactly representable in f32), including nearly parallel pairs
+/// v = k*u + one tiny perturbation.  Component-by-component operations are
+/// compared with the primitive operation on the components (bit for bit for
+/// + - neg * and the element-wise forms, 4 eps relative for division so that a
+/// correctly rounded reciprocal is not an alarm); dot, perp_dot, cross, sum and
+/// magnitude2 against a double-double model with the componentwise allowance
+/// 512 eps * (sum of the magnitudes of the terms).
+pub fn native_floats(cfg: &RunCfg, extra: &mut Extra) {
+    use cgmath::BaseFloat;
+    use cgv_core::acc::Acc;
+    use cgv_core::bits::Bits;
+    use cgv_core::dd;
+    fn run<T: BaseFloat + Bits>(tag: &str, u0: [f64; 4], v0: [f64; 4], a0: f64, acc: &mut Acc, inputs: &dyn Fn() -> serde_json::Value) {
+        let eps = T::epsilon().to_f64().unwrap();
+        let f = |x: f64| T::from(x).unwrap();
+        let g = |x: T| x.to_f64().unwrap();
+        let a = f(a0);
+        let (u, v): ([T; 4], [T; 4]) = (u0.map(f), v0.map(f));
+        let same = |x: T, y: T| x.bits() == y.bits();
+        macro_rules! dim {
+            ($V:ident, $n:expr, ($($i:expr),+)) => {{
+                let (uu, vv) = ($V::new($(u[$i]),+), $V::new($(v[$i]),+));
+                let name = stringify!($V);
+                let arr = |x: $V<T>| -> [T; $n] { x.into() };
+                let (s, d, ng, ms, ds) = (arr(uu + vv), arr(uu - vv), arr(-uu), arr(uu * a), arr(uu / a));
+                let (ea, es, em, ed) = (arr(uu.add_element_wise(vv)), arr(uu.sub_element_wise(vv)), arr(uu.mul_element_wise(vv)), arr(uu.div_element_wise(vv)));
+                for i in 0..$n {
+                    acc.truth(&format!("{tag} {name}: (u + v)[{i}] is not u[{i}] + v[{i}]"), same(s[i], u[i] + v[i]), inputs);
+                    acc.truth(&format!("{tag} {name}: (u - v)[{i}] is not u[{i}] - v[{i}]"), same(d[i], u[i] - v[i]), inputs);
+                    acc.truth(&format!("{tag} {name}: (-u)[{i}] is not -u[{i}]"), same(ng[i], -u[i]), inputs);
+                    acc.truth(&format!("{tag} {name}: (u * a)[{i}] is not u[{i}] * a"), same(ms[i], u[i] * a), inputs);
+                    acc.truth(&format!("{tag} {name}: add_element_wise[{i}]"), same(ea[i], u[i] + v[i]), inputs);
+                    acc.truth(&format!("{tag} {name}: sub_element_wise[{i}]"), same(es[i], u[i] - v[i]), inputs);
+                    acc.truth(&format!("{tag} {name}: mul_element_wise[{i}]"), same(em[i], u[i] * v[i]), inputs);
+                    let q = g(u[i] / a);
+                    acc.check(&format!("{tag} {name}: (u / a)[{i}] vs u[{i}] / a"), g(ds[i]), q, 4.0 * eps * q.abs(), inputs);
+                    let q = g(u[i] / v[i]);
+                    acc.check(&format!("{tag} {name}: div_element_wise[{i}] vs u[{i}] / v[{i}]"), g(ed[i]), q, 4.0 * eps * q.abs(), inputs);
+                }
+                let (uf, vf): (Vec<f64>, Vec<f64>) = (u[..$n].iter().map(|x| g(*x)).collect(), v[..$n].iter().map(|x| g(*x)).collect());
+                let (want, cond) = dd::dot(&uf, &vf);
+                acc.check(&format!("{tag} {name}: dot(u, v)"), g(uu.dot(vv)), want, 512.0 * eps * cond, inputs);
+                acc.check(&format!("{tag} {name}: dot(v, u)"), g(vv.dot(uu)), want, 512.0 * eps * cond, inputs);
+                let (want, cond) = dd::dot(&uf, &uf);
+                acc.check(&format!("{tag} {name}: magnitude2(u)"), g(uu.magnitude2()), want, 512.0 * eps * cond, inputs);
+                let ones = vec![1.0; $n];
+                let (want, cond) = dd::dot(&uf, &ones);
+                acc.check(&format!("{tag} {name}: sum()"), g(uu.sum()), want, 512.0 * eps * cond, inputs);
+                let want: f64 = uf.iter().product();
+                acc.check(&format!("{tag} {name}: product()"), g(uu.product()), want, 256.0 * eps * want.abs(), inputs);
+            }};
+        }
+        dim!(Vector1, 1, (0));
+        dim!(Vector2, 2, (0, 1));
+        dim!(Vector3, 3, (0, 1, 2));
+        dim!(Vector4, 4, (0, 1, 2, 3));
+        let (uf, vf) = (u.map(g), v.map(g));
+        // cross: (u_y v_z - u_z v_y, u_z v_x - u_x v_z, u_x v_y - u_y v_x)
+        let (u3, v3) = (Vector3::new(u[0], u[1], u[2]), Vector3::new(v[0], v[1], v[2]));
+        let (c, cr) = (u3.cross(v3), v3.cross(u3));
+        for (i, (p, q)) in [(1usize, 2usize), (2, 0), (0, 1)].iter().enumerate() {
+            let (want, cond) = dd::dot(&[uf[*p], -uf[*q]], &[vf[*q], vf[*p]]);
+            acc.check(&format!("{tag} cross(u, v)[{i}]"), g(c[i]), want, 512.0 * eps * cond, inputs);
+            acc.check(&format!("{tag} cross(v, u)[{i}] = -cross(u, v)[{i}]"), g(cr[i]), -want, 512.0 * eps * cond, inputs);
+        }
+        let (want, cond) = dd::dot(&[uf[0], -uf[1]], &[vf[1], vf[0]]);
+        acc.check(&format!("{tag} perp_dot(u, v)"), g(Vector2::new(u[0], u[1]).perp_dot(Vector2::new(v[0], v[1]))), want, 512.0 * eps * cond, inputs);
+    }
+    let n = if cfg.tier == Tier::Quick { 3000 } else { 200_000 };
+    let mut acc = Acc::new("c03_float_vectors");
+    for i in 0..n {
+        let mut rng = Rng::for_case(cfg.seed, "c03_native_floats", i);
+        let mut entry = |rng: &mut Rng| {
+            let m = rng.range(1, 2047) as f64 * if rng.bool() { 1.0 } else { -1.0 };
+            m * (2.0f64).powi(rng.range(-20, 20) as i32)
+        };
+        let u: [f64; 4] = [entry(&mut rng), entry(&mut rng), entry(&mut rng), entry(&mut rng)];
+        let mut v: [f64; 4] = [entry(&mut rng), entry(&mut rng), entry(&mut rng), entry(&mut rng)];
+        let class = rng.below(3);
+        if class == 1 {
+            // nearly parallel: v = k*u with one component nudged by a relative 2^-j (exact in f32 for j <= 12)
+            let k = rng.pick(&[1.0, 2.0, -1.0, 0.5, -4.0]);
+            for c in 0..4 {
+                v[c] = u[c] * k;
+            }
+            let c = rng.below(4) as usize;
+            let j = rng.range(2, 12) as i32;
+            v[c] = u[c] * k * (1.0 + (2.0f64).powi(-j));
+            acc.case("nearly parallel (one component nudged by 2^-j)");
+        } else if class == 2 {
+            // same magnitude scale for all components
+            let e = (2.0f64).powi(rng.range(-20, 20) as i32);
+            for c in 0..4 {
+                v[c] = rng.range(1, 2047) as f64 * e * if rng.bool() { 1.0 } else { -1.0 };
+            }
+            acc.case("mixed / common magnitudes");
+        } else {
+            acc.case("components m*2^e, e in [-20,20]");
+        }
+        let a = entry(&mut rng);
+        let inputs = || json!({"u": u, "v": v, "a": a, "index": i});
+        match cgv_core::fw::catch(|| {
+            let mut local = Acc::new("c03_float_vectors");
+            run::<f64>("f64", u, v, a, &mut local, &inputs);
+            run::<f32>("f32", u, v, a, &mut local, &inputs);
+            local
+        }) {
+            Ok(l) => {
+                acc.checks += l.checks;
+                acc.worst = acc.worst.max(l.worst);
+                if acc.fail.is_none() {
+                    acc.fail = l.fail;
+                }
+            }
+            Err(p) => acc.truth(&format!("unexpected panic: {p}"), false, &inputs),
+        }
+        if acc.failed() {
+            break;
+        }
+    }
+    acc.finish(extra, "primitive operation per component (bitwise; 4 eps for division); double-double model for dot/cross/perp_dot/sum/magnitude2 with allowance 512 eps * sum of term magnitudes");
+}
+
+pub fn native(cfg: &RunCfg, extra: &mut Extra) {
+    native_ints(cfg, extra);
+    native_floats(cfg, extra);
+}
+
 pub const RULE: &str = "vectors of small rationals (dimension 1-4) and non-zero rational scalars; non-trivial = every vector has non-zero pairwise distinct components (a dropped or duplicated field changes one output component); distinct = distinct input tuples per clause. Native part: Vector4/3/2 over i8,u8,i32,u32,i64 with bounded random components, non-trivial = all components non-zero and the four components of u distinct.";
 pub const ASSUME: &[&str] = &[
     "exact rational arithmetic in i128",
